@@ -111,6 +111,17 @@ def impl_run(job):
             out["second_first"] = [float(x) for x in r2[0, :]]
     except BaseException as e:  # noqa
         out["second_exc"] = repr(e)[:200]
+    # the model GROWS after it has been tabulated (a reaction that introduces a new species, rate 0), then the same call again:
+    # one column per model species in the model's CURRENT order, never a failure from inside
+    if o["dataframe"] and o["src"] == "model" and o["volume"] not in ("object", "dividing", "baseobject") and o.get("edit"):
+        try:
+            m.create_reaction([job["species"][0]], ["NEWSP"], "massaction", {"k": 0.0})
+            want = [n for n, _ in sorted(m.get_species2index().items(), key=lambda kv: kv[1])]
+            df3 = py_simulate_model(tp, stochastic=o["stochastic"], delay=delay, safe=o["safe"], volume=vol, return_dataframe=True, Model=m)
+            out["grown"] = {"cols": [c if isinstance(c, str) else int(c) for c in df3.columns][:len(want)], "want": want}
+        except BaseException as e:  # noqa
+            tb = traceback.extract_tb(e.__traceback__)
+            out["grown"] = {"exc": "%s raised from %s: %s" % (type(e).__name__, tb[-1].name if tb else "?", str(e)[:160])}
     return out
 
 
@@ -127,6 +138,12 @@ def judge(rec, got):
             return "ok", None, None
         return "drift", None, "explicitly rejected where the design returns a result"
     # got a result
+    if "grown" in got:
+        g = got["grown"]
+        if "exc" in g:
+            return "violation", "grown-model:internal:" + g["exc"].split(" ")[0], "after a reaction with a new species was added to the tabulated model: " + g["exc"]
+        if g["cols"] != g["want"]:
+            return "violation", "grown-model:columns", "after a reaction with a new species was added: columns %r, model species %r" % (g["cols"], g["want"])
     if exp["kind"] == "rejected":
         return "violation", "accepted-bad-args:src=" + o["src"], "contradictory Model/Interface arguments produced a result"
     n = len(rec["species"])
